@@ -16,8 +16,8 @@ import vlib
 from vlib import ToolError, log
 
 TIERS = {
-    "quick": dict(cfg="TT.cfg", cfg3="TT3.cfg", shards=8, histories=12, ops=300),
-    "thorough": dict(cfg="TT5.cfg", cfg3="TT3.cfg", shards=16, histories=60, ops=400),
+    "quick": dict(cfg="TT.cfg", cfg3="TT3.cfg", shards=8, histories=12, ops=300, sshards=8, sroots=4, sdeep=4),
+    "thorough": dict(cfg="TT5.cfg", cfg3="TT3.cfg", shards=16, histories=60, ops=400, sshards=16, sroots=30, sdeep=5),
 }
 
 
@@ -105,6 +105,9 @@ def run(prop, tier, seed):
         R.coverage["recorded"] = {"events_matched": events, "histories": T["shards"] * T["histories"],
                                   "lookups_answered_nothing_where_model_has_entry (deviation Evict, allowed)": evictions}
         R.sample({"recorded_events": [json.loads(x) for x in open(os.path.join(work, "rec_0.ndjson")).readlines()[1:4]]})
+        # the table INSIDE the engine, across real searches (whatever the Searcher does to its table around the stores - a
+        # generation counter, an ageing sweep - is invisible to store / retrieve histories): TTSearchTrace.tla
+        R.coverage["across_searches"] = _across_searches(exe, work, R, [(seed * 41 + i, T["sroots"], T["sdeep"]) for i in range(T["sshards"])])
         log("[tt] %d recorded events matched" % events)
     finally:
         shutil.rmtree(work, ignore_errors=True)
@@ -113,12 +116,43 @@ def run(prop, tier, seed):
     return R
 
 
+def _across_searches(exe, work, R, jobs):
+    def one(job):
+        sd, roots, deep = job
+        p = os.path.join(work, "tts_%d.ndjson" % sd)
+        vlib.run_harness(exe, ["tt-searches", "--seed", sd, "--roots", roots, "--deep", deep, "--out", p], stdout_path=os.path.join(work, "tts_stdout_%d.txt" % sd))
+        return job, p, vlib.validate_trace("TTSearchTrace", "TTSearchTrace.cfg", p, lambda e: e["ev"] == "ttnew", max_rejections=3)
+    steps = replaced = evicted = 0
+    for job, p, (matched, results, rej) in vlib.parallel(one, jobs):
+        steps += matched
+        for r in results:
+            R.add_tlc(r)
+            for pr in r.prints:
+                if "TTSEARCH" in pr:
+                    a = pr.strip("<> ").split(",")
+                    replaced += int(a[1])
+                    evicted += int(a[2])
+        for rj in rej:
+            names = rj["failed"] or [("C15", "no_action_allows_" + rj["event"].get("ev", "?"))]
+            e = rj["event"]
+            R.violation("C15:searches:%s:%s:%s" % (names[0][1], e.get("fen"), e.get("depth")),
+                        "C15 [the table inside the engine, sub-check %s] after the search of '%s' to depth %s on a Searcher that had searched deeper before, "
+                        "an entry that is still in the table has a SMALLER depth than before; %s" % ([n[1] for n in names], e.get("fen"), e.get("depth"), rj["diag"][:500]),
+                        {"kind": "searches", "seed": job[0], "roots": job[1], "deep": job[2]})
+    return {"search_steps_validated": steps, "entries_replaced_by_an_equal_or_deeper_store": replaced, "entries_gone (deviation Evict)": evicted}
+
+
 def replay(prop, payload):
     """re-execute a recorded case on the current tree"""
     exe = vlib.build_harness()
     R = vlib.Result(prop, "quick", 0)
     work = vlib.workdir("ttreplay")
     try:
+        if payload["kind"] == "searches":
+            R.coverage["across_searches"] = _across_searches(exe, work, R, [(payload["seed"], payload["roots"], payload["deep"])])
+            R.coverage["traces_validated_against_impl"] = 1
+            R.sample(payload)
+            return R
         if payload["kind"] == "history":
             rec = payload["record"]
             p = os.path.join(work, "h.ndjson")
